@@ -443,7 +443,9 @@ fn lib_quiescent(sc: &Sc, main_done: bool) {
 		Quit::Graceful(g) => {
 			let armed = PLAN.with(|p| p.borrow().restart_armed_at);
 			let remaining = armed.map_or(0, |t| (t + RESTART_GRACE).saturating_sub(tq));
-			let deadline = tq + remaining + g + 1;
+			// "plus a small margin": one tick, plus one tick for each grace timer involved (an
+			// implementation may add a safety margin to each of them)
+			let deadline = tq + remaining + g + 2 + u64::from(armed.is_some());
 			if now > deadline {
 				push(
 					format!("C08/graceful-quit-past-deadline/{}", class_key(jobs)),
@@ -654,7 +656,7 @@ pub fn scenarios(tier: Tier) -> Vec<(Sc, Vec<Bounds>)> {
 						continue; // these classes need time to pass between creation and quit
 					}
 					let g = if let Quit::Graceful(g) = q { g } else { 0 };
-					let sc = Sc::Lib { jobs: vec![c], quit: q, ignores, same_action: same, horizon: RESTART_GRACE + g + 2 };
+					let sc = Sc::Lib { jobs: vec![c], quit: q, ignores, same_action: same, horizon: RESTART_GRACE + g + 4 };
 					let passes = match tier {
 						Tier::Quick => [both(0), both(1)].concat(),
 						Tier::Thorough => [both(0), both(1), both(2)].concat(),
@@ -672,7 +674,7 @@ pub fn scenarios(tier: Tier) -> Vec<(Sc, Vec<Bounds>)> {
 				let ignore_set: &[bool] = if tier == Tier::Thorough { &[false, true] } else { &[true] };
 				for ignores in ignore_set {
 					let g = if let Quit::Graceful(g) = q { g } else { 0 };
-					out.push((Sc::Lib { jobs: vec![a, b], quit: q, ignores: *ignores, same_action: false, horizon: RESTART_GRACE + g + 2 }, both(0)));
+					out.push((Sc::Lib { jobs: vec![a, b], quit: q, ignores: *ignores, same_action: false, horizon: RESTART_GRACE + g + 4 }, both(0)));
 				}
 			}
 		}
